@@ -4,6 +4,11 @@
 //! (`kzg/utils.rs: construct_intermediate_sets`) on prover queries, verifier queries and
 //! abstract `(commitment id, point, eval)` queries, and return its result as plain data.
 //! Nothing else becomes public.
+//!
+//! Also a thread-local, observe-only trace of the intermediate scalars of `multi_prepare`
+//! (`kzg/mod.rs`): the `x1` powers, the `x1`-combined evaluation sets, every `r_eval` in the
+//! order of the `f_eval` fold (last point set first), `f_eval` and `v`. Off unless switched on
+//! with [`verif_prepare_trace_on`]; nothing is read back by the verifier.
 
 use std::hash::Hash;
 
@@ -95,4 +100,79 @@ pub fn verif_sets_verifier<F: PrimeField + Hash + Ord, CS: PolynomialCommitmentS
     queries: &[VerifierQuery<'_, F, CS>],
 ) -> Result<VerifIntermediateSets<F>, Error> {
     run(queries)
+}
+
+/// One call of `multi_prepare` as seen by the trace. Field elements are stored as the bytes of
+/// their canonical representation (`PrimeField::to_repr`). A call that returns early leaves the
+/// fields it did not reach empty.
+#[derive(Clone, Debug, Default, PartialEq, Eq)]
+pub struct VerifPrepareTrace {
+    /// `powers_x1`.
+    pub powers_x1: Vec<Vec<u8>>,
+    /// `q_eval_sets` after `evals_inner_product`.
+    pub q_eval_sets: Vec<Vec<Vec<u8>>>,
+    /// Every `r_eval`, in the order of the fold (last point set first).
+    pub r_evals: Vec<Vec<u8>>,
+    /// `f_eval`.
+    pub f_eval: Vec<u8>,
+    /// `v`.
+    pub v: Vec<u8>,
+}
+
+thread_local! {
+    static TRACE_ON: std::cell::Cell<bool> = const { std::cell::Cell::new(false) };
+    static TRACE: std::cell::RefCell<Vec<VerifPrepareTrace>> = const { std::cell::RefCell::new(Vec::new()) };
+}
+
+/// Switches the `multi_prepare` trace of this thread on or off (and empties it).
+pub fn verif_prepare_trace_on(on: bool) {
+    TRACE_ON.with(|t| t.set(on));
+    TRACE.with(|t| t.borrow_mut().clear());
+}
+
+/// Removes and returns the records traced on this thread.
+pub fn verif_take_prepare_trace() -> Vec<VerifPrepareTrace> {
+    TRACE.with(|t| std::mem::take(&mut *t.borrow_mut()))
+}
+
+fn repr<F: PrimeField>(f: &F) -> Vec<u8> {
+    f.to_repr().as_ref().to_vec()
+}
+
+fn with_last(f: impl FnOnce(&mut VerifPrepareTrace)) {
+    if TRACE_ON.with(|t| t.get()) {
+        TRACE.with(|t| {
+            if let Some(last) = t.borrow_mut().last_mut() {
+                f(last)
+            }
+        });
+    }
+}
+
+/// Called once `powers_x1` and the combined `q_eval_sets` exist (opens a record).
+pub(crate) fn on_q_eval_sets<F: PrimeField>(powers_x1: &[F], q_eval_sets: &[Vec<F>]) {
+    if TRACE_ON.with(|t| t.get()) {
+        TRACE.with(|t| {
+            t.borrow_mut().push(VerifPrepareTrace {
+                powers_x1: powers_x1.iter().map(repr).collect(),
+                q_eval_sets: q_eval_sets.iter().map(|s| s.iter().map(repr).collect()).collect(),
+                ..Default::default()
+            })
+        });
+    }
+}
+
+/// Called for every `r_eval` of the `f_eval` fold.
+pub(crate) fn on_r_eval<F: PrimeField>(r_eval: &F) {
+    with_last(|t| t.r_evals.push(repr(r_eval)));
+}
+
+/// Called with `f_eval`.
+pub(crate) fn on_f_eval<F: PrimeField>(f_eval: &F) {
+    with_last(|t| t.f_eval = repr(f_eval));
+}
+
+/// Called with `v`.
+pub(crate) fn on_v<F: PrimeField>(v: &F) {
+    with_last(|t| t.v = repr(v));
 }
